@@ -329,6 +329,9 @@ func (r *LayerManager) release(ctx context.Context, refspec reference.Spec, tocD
 		}
 		l.Done()
 		delete(r.layer[refspec.String()], tocDigest.String())
+		// This layer is gone so forget that it has been resolved. Otherwise, while other layers of
+		// this image are still in use, a later lookup of this layer finds nothing to resolve and fails.
+		delete(r.resolveLayerCache[refspec.String()], l.Info().Digest.String())
 		if len(r.layer[refspec.String()]) == 0 {
 			delete(r.layer, refspec.String())
 		}
